@@ -1090,3 +1090,223 @@ pub mod skip {
         })
     }
 }
+
+/// Newline conversion (`formatting/newline_style.rs`), trailing-blank removal (`utils.rs`) and
+/// the blank-line clamp / verbatim copy of `missed_spans.rs`.
+pub mod newline {
+    use crate::config::{Config, NewlineStyle};
+    use crate::formatting::verif_local::newline_style_local as ns;
+    use crate::shape::Indent;
+
+    /// `convert_to_windows_newlines`
+    pub fn convert_to_windows_newlines(text: &str) -> String {
+        ns::to_windows(&text.to_owned())
+    }
+
+    /// `convert_to_unix_newlines`
+    pub fn convert_to_unix_newlines(text: &str) -> String {
+        ns::to_unix(text)
+    }
+
+    /// `auto_detect_newline_style`: true = Windows, false = Unix.
+    pub fn auto_detect_is_windows(raw_input_text: &str) -> bool {
+        ns::auto_detect_is_windows(raw_input_text)
+    }
+
+    /// `apply_newline_style(style, &mut formatted, raw_input_text)`: the text afterwards.
+    pub fn apply_newline_style(style: NewlineStyle, formatted: &str, raw_input_text: &str) -> String {
+        let mut t = formatted.to_owned();
+        ns::apply(style, &mut t, raw_input_text);
+        t
+    }
+
+    /// `utils::remove_trailing_white_spaces`
+    pub fn remove_trailing_white_spaces(text: &str) -> String {
+        crate::utils::remove_trailing_white_spaces(text)
+    }
+
+    /// `source_file::append_newline`
+    pub fn append_newline(text: &str) -> String {
+        let mut t = text.to_owned();
+        crate::source_file::append_newline(&mut t);
+        t
+    }
+
+    /// `FmtVisitor::push_vertical_spaces(newline_count)` on a fresh visitor whose buffer holds
+    /// `buffer`: (buffer, line_number) afterwards.
+    pub fn push_vertical_spaces(buffer: &str, newline_count: usize, config: &Config) -> (String, usize) {
+        crate::missed_spans::verif_local::push_vertical_spaces(buffer, newline_count, config)
+    }
+
+    /// `FmtVisitor::process_missing_code(status, snippet, &snippet[offset..offset+len], offset, stdin)`
+    /// on a fresh visitor with `block_indent = Indent::new(block_indent, 0)`; `status` is
+    /// `(line_start, last_wspace, cur_line)`. Returns the pushed text and the status afterwards.
+    pub fn process_missing_code(
+        snippet: &str,
+        offset: usize,
+        len: usize,
+        status: (usize, Option<usize>, usize),
+        block_indent: usize,
+        config: &Config,
+    ) -> (String, (usize, Option<usize>, usize)) {
+        crate::missed_spans::verif_local::process_missing_code(
+            snippet,
+            offset,
+            len,
+            status,
+            Indent::new(block_indent, 0),
+            config,
+        )
+    }
+}
+
+/// Every method of `shape.rs` with plain integers: an `Indent` is `(block_indent, alignment)`,
+/// a `Shape` is `(width, block_indent, alignment, offset)`. Methods that can panic do panic.
+pub mod shape {
+    use rustc_span::DUMMY_SP;
+
+    use crate::config::Config;
+    use crate::shape::{Indent, Shape, verif_local as sl};
+
+    pub type I = (usize, usize);
+    pub type S = (usize, usize, usize, usize);
+
+    fn i(x: I) -> Indent {
+        Indent {
+            block_indent: x.0,
+            alignment: x.1,
+        }
+    }
+    fn s(x: S) -> Shape {
+        Shape {
+            width: x.0,
+            indent: Indent {
+                block_indent: x.1,
+                alignment: x.2,
+            },
+            offset: x.3,
+        }
+    }
+    fn oi(x: Indent) -> I {
+        (x.block_indent, x.alignment)
+    }
+    fn os(x: Shape) -> S {
+        (x.width, x.indent.block_indent, x.indent.alignment, x.offset)
+    }
+
+    pub fn indent_to_string_inner(a: I, offset: usize, config: &Config) -> String {
+        sl::indent_to_string_inner(i(a), config, offset)
+    }
+    pub fn indent_new(block_indent: usize, alignment: usize) -> I {
+        oi(Indent::new(block_indent, alignment))
+    }
+    pub fn indent_from_width(config: &Config, width: usize) -> I {
+        oi(Indent::from_width(config, width))
+    }
+    pub fn indent_empty() -> I {
+        oi(Indent::empty())
+    }
+    pub fn indent_block_only(a: I) -> I {
+        oi(i(a).block_only())
+    }
+    pub fn indent_block_indent(a: I, config: &Config) -> I {
+        oi(i(a).block_indent(config))
+    }
+    pub fn indent_block_unindent(a: I, config: &Config) -> I {
+        oi(i(a).block_unindent(config))
+    }
+    pub fn indent_width(a: I) -> usize {
+        i(a).width()
+    }
+    pub fn indent_to_string(a: I, config: &Config) -> String {
+        i(a).to_string(config).into_owned()
+    }
+    pub fn indent_to_string_with_newline(a: I, config: &Config) -> String {
+        i(a).to_string_with_newline(config).into_owned()
+    }
+    pub fn indent_add(a: I, b: I) -> I {
+        oi(i(a) + i(b))
+    }
+    pub fn indent_sub(a: I, b: I) -> I {
+        oi(i(a) - i(b))
+    }
+    pub fn indent_add_usize(a: I, n: usize) -> I {
+        oi(i(a) + n)
+    }
+    pub fn indent_sub_usize(a: I, n: usize) -> I {
+        oi(i(a) - n)
+    }
+
+    pub fn legacy(width: usize, indent: I) -> S {
+        os(Shape::legacy(width, i(indent)))
+    }
+    pub fn indented(indent: I, config: &Config) -> S {
+        os(Shape::indented(i(indent), config))
+    }
+    pub fn with_max_width(a: S, config: &Config) -> S {
+        os(s(a).with_max_width(config))
+    }
+    pub fn visual_indent(a: S, delta: usize) -> S {
+        os(s(a).visual_indent(delta))
+    }
+    pub fn block_indent(a: S, delta: usize) -> S {
+        os(s(a).block_indent(delta))
+    }
+    /// `Err(configured_width)` for `ExceedsMaxWidthError`.
+    pub fn block_left(a: S, delta: usize) -> Result<S, usize> {
+        s(a).block_left(delta, DUMMY_SP)
+            .map(os)
+            .map_err(|e| e.configured_width)
+    }
+    pub fn add_offset(a: S, delta: usize) -> S {
+        os(s(a).add_offset(delta))
+    }
+    pub fn block(a: S) -> S {
+        os(s(a).block())
+    }
+    pub fn saturating_sub_width(a: S, delta: usize) -> S {
+        os(s(a).saturating_sub_width(delta))
+    }
+    pub fn sub_width(a: S, delta: usize) -> Result<S, usize> {
+        s(a).sub_width(delta, DUMMY_SP)
+            .map(os)
+            .map_err(|e| e.configured_width)
+    }
+    pub fn sub_width_opt(a: S, delta: usize) -> Option<S> {
+        s(a).sub_width_opt(delta).map(os)
+    }
+    pub fn shrink_left(a: S, delta: usize) -> Result<S, usize> {
+        s(a).shrink_left(delta, DUMMY_SP)
+            .map(os)
+            .map_err(|e| e.configured_width)
+    }
+    pub fn shrink_left_opt(a: S, delta: usize) -> Option<S> {
+        s(a).shrink_left_opt(delta).map(os)
+    }
+    pub fn offset_left(a: S, delta: usize) -> Result<S, usize> {
+        s(a).offset_left(delta, DUMMY_SP)
+            .map(os)
+            .map_err(|e| e.configured_width)
+    }
+    pub fn offset_left_opt(a: S, delta: usize) -> Option<S> {
+        s(a).offset_left_opt(delta).map(os)
+    }
+    pub fn used_width(a: S) -> usize {
+        s(a).used_width()
+    }
+    pub fn rhs_overhead(a: S, config: &Config) -> usize {
+        s(a).rhs_overhead(config)
+    }
+    pub fn comment(a: S, config: &Config) -> S {
+        os(s(a).comment(config))
+    }
+    pub fn to_string_with_newline(a: S, config: &Config) -> String {
+        s(a).to_string_with_newline(config).into_owned()
+    }
+    pub fn infinite_width(a: S) -> S {
+        os(s(a).infinite_width())
+    }
+    pub fn exceeds_max_width_error(a: S) -> usize {
+        sl::exceeds_max_width_error(s(a))
+    }
+}
